@@ -120,6 +120,62 @@ def run(ctx):
             ok = True
     ctx.ob(R3, f"{AUX}::_init_runpp_options::overrule", ok, "stored options are filtered by 'key not in passed_parameters'", fo.loc())
     rule_kwargs_and_readers(ctx)
+    rule_passed_exact(ctx)
+
+
+def rule_passed_exact(ctx):
+    """what counts as passed, what may overrule, and what the control loop receives"""
+    R = "PASSED-EXACT"
+    ctx.rule(R, "_passed_runpp_parameters decides 'differs from the default' by exact inequality (`val != default`): a tolerance would "
+                "classify an explicit value close to the default as not passed; _init_runpp_options builds overrule_options from the "
+                "stored options minus the passed keys and adds nothing to it afterwards; the run_control branch of runpp hands every "
+                "parameter on (locals() or a mapping with all named parameters)")
+    fi = ctx.repo.func(f"{RUN}:_passed_runpp_parameters")
+    comp = next((n for n in ast.walk(fi.node) if isinstance(n, ast.Assign) and ast.unparse(n.targets[0]) == "passed_parameters" and isinstance(n.value, ast.DictComp)), None)
+    ok = False
+    det = "comprehension not found"
+    if comp is not None:
+        cond = comp.value.generators[0].ifs[0] if comp.value.generators[0].ifs else None
+        det = ast.unparse(cond)[:120] if cond is not None else "no condition"
+        cmps = [c for c in ast.walk(cond) if isinstance(c, ast.Compare) and isinstance(c.ops[0], ast.NotEq)] if cond is not None else []
+        calls = [ast.unparse(c.func) for c in ast.walk(cond) if isinstance(c, ast.Call)] if cond is not None else []
+        ok = any(ast.unparse(c.left) == "val" and "default_parameters" in ast.unparse(c.comparators[0]) for c in cmps) and \
+            all(f in ("default_parameters.keys", "default_parameters.get") for f in calls)
+    ctx.ob(R, f"{RUN}::_passed_runpp_parameters::exact-comparison", ok, f"passed if `{det}`", fi.loc(comp) if comp is not None else fi.loc())
+    fo = ctx.repo.func("pandapower.auxiliary:_init_runpp_options")
+    defs = [n for n in ast.walk(fo.node) if isinstance(n, ast.Assign) and ast.unparse(n.targets[0]) == "overrule_options"]
+    filt = [n for n in defs if isinstance(n.value, ast.DictComp)]
+    okf = bool(filt) and "net.user_pf_options.items()" in ast.unparse(filt[0].value) and "notinpassed_parameters" in ast.unparse(filt[0].value).replace(" ", "")
+    muts = [c for c in ast.walk(fo.node) if (isinstance(c, ast.Call) and isinstance(c.func, ast.Attribute) and c.func.attr in ("update", "setdefault")
+                                              and ast.unparse(c.func.value) == "overrule_options")
+            or (isinstance(c, ast.Assign) and isinstance(c.targets[0], ast.Subscript) and ast.unparse(c.targets[0].value) == "overrule_options")]
+    ctx.ob(R, "pandapower.auxiliary::_init_runpp_options::overrule-filter", okf and not muts,
+           "overrule_options = stored options without the passed keys, not extended afterwards" if okf and not muts else
+           (f"`{ast.unparse(muts[0])[:90]}` adds entries to overrule_options after the passed keys were filtered out: a stored value can overrule "
+            "an explicit argument" if muts else "filtering comprehension over net.user_pf_options not found"),
+           fo.loc(muts[0]) if muts else fo.loc())
+    fr = ctx.repo.func(f"{RUN}:runpp")
+    blk = next((n for n in ast.walk(fr.node) if isinstance(n, ast.If) and "run_control" in ast.unparse(n.test) and
+                any(isinstance(c, ast.Call) and ast.unparse(c.func) == "run_control" for c in ast.walk(n))), None)
+    if blk is None:
+        ctx.fail("runpp: run_control branch not found")
+    body_txt = "\n".join(ast.unparse(st) for st in blk.body)
+    ok = "locals()" in body_txt
+    missing = []
+    if not ok:
+        named = [a.arg for a in fr.node.args.args[1:]]
+        keys = set()
+        for c in ast.walk(ast.Module(body=blk.body, type_ignores=[])):
+            if isinstance(c, ast.Call):
+                keys |= {k.arg for k in c.keywords if k.arg}
+            if isinstance(c, ast.Dict):
+                keys |= {k.value for k in c.keys if isinstance(k, ast.Constant)}
+        missing = [p for p in named if p not in keys and p != "run_control"]
+        ok = not missing
+    ctx.ob(R, f"{RUN}::runpp::run_control-hand-over", ok,
+           "every runpp parameter is handed to the control loop" if ok else
+           f"the run_control branch does not hand over {missing}: with controllers in service an explicit value of these parameters is lost and the "
+           "stored option wins", fr.loc(blk))
 
 
 def rule_kwargs_and_readers(ctx):
@@ -167,6 +223,9 @@ def variants(repo):
     a = "pandapower/auxiliary.py"
     V = Variant
     return [
+        V("default comparison with a tolerance", "pandapower/run.py", in_function("_passed_runpp_parameters", replace_once("val != default_parameters.get(key, None)}", "not np.isclose(val, default_parameters.get(key, None))}")), "exact-comparison"),
+        V("nested stored options added after the filter", a, in_function("_init_runpp_options", replace_once("    kwargs.update(overrule_options)\n", '    overrule_options.update(overrule_options.pop("pf_options", {}))\n    kwargs.update(overrule_options)\n')), "overrule-filter"),
+        V("run_control branch with a hand-written argument list", "pandapower/run.py", in_function("runpp", replace_once("        parameters = {**locals(), **kwargs}\n", "        parameters = dict(algorithm=algorithm, init=init, max_iteration=max_iteration, tolerance_mva=tolerance_mva, **kwargs)\n        parameters['net'] = net\n")), "run_control-hand-over"),
         V("None-valued keyword options not counted as passed", "pandapower/run.py", in_function("_passed_runpp_parameters", replace_once("passed_parameters.update(kwargs_parameters)", "passed_parameters.update({key: val for key, val in kwargs_parameters.items() if val is not None})")), "KWARGS-PASSED"),
         V("recycle shortcut reads the stored options", "pandapower/run.py", in_function("runpp", replace_once('    if isinstance(kwargs.get("recycle", None), dict) and _internal_stored(net):', '    recycle = net.get("user_pf_options", {}).get("recycle", kwargs.get("recycle", None))\n    if isinstance(recycle, dict) and _internal_stored(net):')), "STORED-READERS"),
         V("init not re-read", a, in_function("_init_runpp_options", replace_once('    init = overrule_options.get("init", init)\n', '')), "REREAD"),
